@@ -251,3 +251,7 @@ impl fmt::Debug for FileRunner {
     }
 }
 */
+
+#[cfg(feature = "verif-hooks")]
+#[path = "verif_hooks_c17.rs"]
+pub mod verif_hooks_c17;
